@@ -94,14 +94,31 @@ class MapFunc:
         return tuple(value(f"out({o};{app})") for o in self.outs)
 
 
-def build_map(case, log, fail_key=None, exc_kind="V"):
+def as_closure(mf):
+    """The same user function as a NESTED function (a closure over `mf`): not picklable by reference, like any
+    function of a pipeline built inside a factory function, a lambda, or an interactively defined function.
+    pipefunc ships it to worker processes with cloudpickle; whatever travels back with the standard pickle of
+    concurrent.futures (e.g. an exception that refers to it) cannot be pickled."""
+
+    def body(**kw):
+        return mf(**kw)
+
+    body.__name__ = mf.__name__
+    body.__qualname__ = "as_closure.<locals>." + mf.__name__
+    body.__signature__ = mf.__signature__
+    return body
+
+
+def build_map(case, log, fail_key=None, exc_kind="V", local=False):
+    """local=True: every user function is a non-importable closure (see as_closure)."""
     from pipefunc import PipeFunc, Pipeline
 
     funcs = []
     for fd in case["funcs"]:
         outs = fd["outs"]
+        mf = MapFunc(fd, log, fail_key, exc_kind)
         funcs.append(PipeFunc(
-            MapFunc(fd, log, fail_key, exc_kind),
+            as_closure(mf) if local else mf,
             output_name=outs[0] if len(outs) == 1 else tuple(outs),
             mapspec=mapsym.spec_str(fd.get("spec")),
             internal_shape=tuple(fd["int"]) if fd.get("int") else None,
